@@ -170,3 +170,49 @@ Proof.
   - rewrite lookup_insert_eq. discriminate.
   - now rewrite lookup_insert_neq.
 Qed.
+
+(* ---- remove / remove_keys ---- *)
+Lemma lookup_remove_eq {V} (k : N) (m : list (N * V)) : lookup k (remove k m) = None.
+Proof.
+  induction m as [|[k' v] m IH]; [reflexivity|]. cbn [remove].
+  destruct (N.eqb_spec k k') as [->|Hne]; [exact IH|]. cbn [lookup].
+  destruct (N.eqb_spec k k'); [contradiction|exact IH].
+Qed.
+
+Lemma lookup_remove_neq {V} (k k0 : N) (m : list (N * V)) : k0 <> k -> lookup k0 (remove k m) = lookup k0 m.
+Proof.
+  intro Hne. induction m as [|[k' v] m IH]; [reflexivity|]. cbn [remove lookup].
+  destruct (N.eqb_spec k k') as [->|Hk].
+  - destruct (N.eqb_spec k0 k'); [contradiction|exact IH].
+  - cbn [lookup]. destruct (N.eqb_spec k0 k'); [reflexivity|exact IH].
+Qed.
+
+Lemma lookup_remove_some {V} (k k0 : N) (m : list (N * V)) v : lookup k0 (remove k m) = Some v -> lookup k0 m = Some v.
+Proof.
+  destruct (N.eq_dec k0 k) as [->|Hne]; [rewrite lookup_remove_eq; discriminate|].
+  now rewrite lookup_remove_neq.
+Qed.
+
+Lemma lookup_remove_keys_out {V} (ks : list N) : forall (m : list (N * V)) k0,
+  ~ In k0 ks -> lookup k0 (remove_keys ks m) = lookup k0 m.
+Proof.
+  unfold remove_keys. induction ks as [|k ks IH]; intros m k0 H; [reflexivity|]. cbn [fold_left].
+  rewrite IH by (intro Hi; apply H; now right). apply lookup_remove_neq. intro E. apply H. now left.
+Qed.
+
+Lemma lookup_remove_keys_in {V} (ks : list N) : forall (m : list (N * V)) k0,
+  In k0 ks -> lookup k0 (remove_keys ks m) = None.
+Proof.
+  unfold remove_keys. induction ks as [|k ks IH]; intros m k0 H; [contradiction|]. cbn [fold_left].
+  destruct (in_dec N.eq_dec k0 ks) as [Hi|Hn]; [now apply IH|].
+  destruct H as [->|H]; [|contradiction].
+  fold (remove_keys ks (remove k0 m)). rewrite lookup_remove_keys_out by exact Hn. apply lookup_remove_eq.
+Qed.
+
+Lemma lookup_remove_keys_some {V} (ks : list N) (m : list (N * V)) k0 v :
+  lookup k0 (remove_keys ks m) = Some v -> lookup k0 m = Some v /\ ~ In k0 ks.
+Proof.
+  intro H. destruct (in_dec N.eq_dec k0 ks) as [Hi|Hn].
+  - rewrite lookup_remove_keys_in in H by exact Hi. discriminate.
+  - rewrite lookup_remove_keys_out in H by exact Hn. auto.
+Qed.
